@@ -1,10 +1,18 @@
-"""C09 — see DESIGN.md §5. Shared machinery: checks/hist_common.py, checks/oracles.py."""
-from checks import hist_common
+"""C09 — see DESIGN.md §5. Shared machinery: checks/hist_common.py, checks/oracles.py.
+The codec the session model assumes is the codec the codec model proves
+(Model/CodecBridge.v, Properties/C09B.v): checks/codec_bridge.py evaluates the
+modelled round trip on every record the real store is seen to hold."""
+import json
+
+from checks import codec_bridge, hist_common
 
 
 def run(chk):
+    codec_bridge.stage(chk)
     return hist_common.run_property(chk, "C09")
 
 
 def replay(chk, path):
+    if "codec_bridge" in json.load(open(path)):
+        return codec_bridge.replay(chk, path)
     return hist_common.replay_property(chk, "C09", path)
